@@ -267,6 +267,8 @@ func (cc *Conn) AsyncPing(receivedPong func()) (func(), error) {
 		removeTokenHandler()
 		return nil, fmt.Errorf("cannot write request: %w", err)
 	}
+	// a ping issued from a handler must not stop incoming messages (incl. the pong) from being read
+	cc.receivedMessageReader.TryToReplaceLoop()
 	return removeTokenHandler, nil
 }
 
@@ -333,6 +335,9 @@ func (cc *Conn) NetConn() net.Conn {
 
 // DoObserve subscribes for every change with request.
 func (cc *Conn) doObserve(req *pool.Message, observeFunc func(req *pool.Message)) (client.Observation, error) {
+	// The registration waits for its answer. When it is issued from a handler the reader loop is
+	// busy with that handler, so - as for requests - let another loop process incoming messages meanwhile.
+	cc.receivedMessageReader.TryToReplaceLoop()
 	return cc.observationHandler.NewObservation(req, observeFunc)
 }
 
